@@ -9,7 +9,7 @@ import (
 func init() {
 	register(&Property{
 		ID:          "C14",
-		Explanation: "Decides narrow structural clauses of snapshot file integrity: the result of every integrity validator (block CRC, header CRC, tail magic/size, V1/V2 stream validators, first-chunk header split) is examined at every call site and its failing edge reaches only rejection (fail-stop, false, error); both header writers (file writer and streaming chunk writer) write the CRC trailer that the reader verifies, computed over the encoded header; the reader verifies that trailer on every path that returns a header and validates the payload checksum on every path of Close; the file writer's Close performs flush -> header -> file sync -> close -> directory sync on every path and exposes payload size/checksum only after close; a streamed chunk's payload is a freshly allocated buffer, never the block writer's internal buffer. Byte identity for all write/read segmentations and detection of every bit flip are declined.",
+		Explanation: "Decides narrow structural clauses of snapshot file integrity: the result of every integrity validator (block CRC, header CRC, tail magic/size, V1/V2 stream validators, first-chunk header split) is examined at every call site and its failing edge reaches only rejection (fail-stop, false, error); both header writers (file writer and streaming chunk writer) write the CRC trailer that the reader verifies, computed over the encoded header; the reader verifies that trailer on every path that returns a header and validates the payload checksum on every path of Close; the file writer's Close performs flush -> header -> file sync -> close -> directory sync on every path and exposes payload size/checksum only after close; a streamed chunk's payload is a freshly allocated buffer, never the block writer's internal buffer. Byte identity for all write/read segmentations and detection of every bit flip are declined. Reader helpers report the byte count of the read they made; a short read treated as end-of-data is accounted for.",
 		NotCovered:  "byte-identical round trip for all sizes and segmentations; that every single bit flip is detected (value-level)",
 		Run:         runC14,
 	})
